@@ -142,6 +142,10 @@ func C02(ctx *core.Ctx) {
 	ctx.Rule("C02.R6", "qualified-name discipline: a map lookup keyed by the unqualified type name (ParamName) happens only after the include qualifier (IncludeName) was tested", 1)
 	ctx.Rule("C02.R5", "args/result synthesis: result fields optional, success id 0, argument fields never optional", 3)
 
+	ctx.Rule("C02.R7", "alias agreement: every switch of the Go generator over the IDL type name handles `byte` and `i8` alike", 6)
+	aliasAgreement(ctx, cc, "C02.R7", map[string]bool{"golang": true}, "an i8 field is generated differently from a byte field (pointer-ness, wire type, reader/writer)")
+	c02KindIndependence(ctx, cc)
+
 	var gpkg, ppkg *packages.Package
 	for _, p := range cc.V.Pkgs {
 		switch p.Name {
